@@ -117,4 +117,57 @@ theorem rows_names (g : Transform.Geno) (keep : List Nat) (target : Name) (liste
   unfold rows
   simp [List.map_map, Function.comp_def]
 
+/-! ## `clump`'s `ComputeLD` in Pearson mode: the same statistic over the samples without a missing call -/
+
+/-- a call `(a, b)` of allele indices; `254` and `255` stand for a missing allele -/
+def callOK (c : Nat × Nat) : Bool := decide (c.1 < 254) && decide (c.2 < 254)
+
+/-- `_FilterGts`: the samples in which neither variant has a missing allele, as pairs of dosages (sums of the two
+    allele indices: ALT counts for SNPs, repeat copy numbers for STRs) -/
+def validDosages (cand index : List (Nat × Nat)) : List (Int × Int) :=
+  ((cand.zip index).filter (fun p => callOK p.1 && callOK p.2)).map
+    (fun p => (((p.1.1 + p.1.2 : Nat) : Int), ((p.2.1 + p.2.2 : Nat) : Int)))
+
+inductive ClumpLd where
+  | empty                      -- no sample is left: reported as 0, never in LD
+  | undefined                  -- one of the two is constant over the samples left: NaN, never in LD
+  | r2 (num2 den : Int)        -- r² = num2 / den with den > 0
+deriving DecidableEq, Repr
+
+def clumpLd (cand index : List (Nat × Nat)) : ClumpLd :=
+  let v := validDosages cand index
+  if v.isEmpty then .empty
+  else match stat (v.map (·.1)) (v.map (·.2)) with
+    | none => .undefined
+    | some s => .r2 (s.num * s.num) (s.da * s.db)
+
+theorem validDosages_swap (cand index : List (Nat × Nat)) :
+    validDosages index cand = (validDosages cand index).map (fun p => (p.2, p.1)) := by
+  unfold validDosages
+  induction cand generalizing index with
+  | nil => cases index <;> simp
+  | cons c cs ih =>
+    cases index with
+    | nil => simp
+    | cons i is =>
+      simp only [List.zip_cons_cons, List.filter_cons]
+      rw [Bool.and_comm (callOK i) (callOK c)]
+      split
+      · simp only [List.map_cons, List.cons.injEq, true_and]
+        exact ih is
+      · exact ih is
+
+/-- r²(candidate, index) = r²(index, candidate) -/
+theorem clumpLd_symm (cand index : List (Nat × Nat)) : clumpLd index cand = clumpLd cand index := by
+  unfold clumpLd
+  rw [validDosages_swap]
+  simp only [List.isEmpty_map, List.map_map, Function.comp_def]
+  split
+  · rfl
+  · have hl : ((validDosages cand index).map (·.1)).length = ((validDosages cand index).map (·.2)).length := by simp
+    rw [stat_symm _ _ hl]
+    cases stat ((validDosages cand index).map (·.1)) ((validDosages cand index).map (·.2)) with
+    | none => rfl
+    | some s => simp [Int.mul_comm]
+
 end LdStat
